@@ -219,7 +219,7 @@ def r5(ctx, F, hub):
         ctx.missing('C12.R5', 'handle_put: replies')
     for wb, wt in replies:
         # every entry->reply path passes a consumer
-        ok = bool(consumers) and wb not in cfg.reach(0, cut_blocks=consumers)
+        ok = bool(consumers) and (wb not in cfg.reach(0, cut_blocks=consumers) or wb not in cfg.feasible_reach(0, cut_blocks=consumers))
         what = root_name(fl, wt['args'][1])
         ctx.check(ok, 'C12.R5', 'handle_put:reply(%s)' % reply_kind(fl, wt), 'a take(len)-bounded consumer precedes this reply on every path',
                   'handle_put can reply without having consumed the `len` content bytes that follow the frame: the stream is out of step afterwards', term_loc(b, wb))
